@@ -560,23 +560,26 @@ func textDiffEval(c *run.Ctx, be textBackend, id string, prog *wgen.Program, see
 
 func textDiffRule(lang string) string {
 	return "the C01 campaign (generated compute programs x boundary-biased inputs) compiled by naga's " + lang + " backend under several option sets; the emitted text is parsed, statically checked (reserved identifiers, redeclarations, unresolved names, typing) and executed by an independent " + lang + " interpreter with undefined-behaviour monitors over byte buffers laid out by the target language's own rules; every output leaf is compared with the wref WGSL reference; " +
-		"distinct = distinct (generator features + wref kinds + interpreter statement/operator/builtin kinds executed); non-trivial = an output leaf changed and was compared"
+		"plus the grid of calls passing two or three pointers at once (see C01); distinct = distinct (generator features + wref kinds + interpreter statement/operator/builtin kinds executed); non-trivial = an output leaf changed and was compared"
 }
 
 func init() {
 	register("C05", func(c *run.Ctx) int {
 		replayWitnesses(c, map[string]func(witness) string{"exec-glsl": witnessExecText(glslBackend)})
 		c.Each(c.N(600, 6000), textDiffCheck(c, glslBackend, "C05"))
+		c01PtrArgs(c, []string{"glsl"})
 		return c.Finish(textDiffRule("GLSL"), []string{"glslx implements GLSL 4.x / ES 3.1 semantics, std430/std140 layout and treats GLSL-undefined operations as traps", "executions on which GLSL itself is undefined are outside the property"})
 	})
 	register("C04", func(c *run.Ctx) int {
 		replayWitnesses(c, map[string]func(witness) string{"exec-msl": witnessExecText(mslBackend)})
 		c.Each(c.N(600, 6000), textDiffCheck(c, mslBackend, "C04"))
+		c01PtrArgs(c, []string{"msl"})
 		return c.Finish(textDiffRule("MSL"), []string{"mslx implements MSL / C++14 semantics and the Metal ABI layout (vec3 = 16 bytes, packed vectors, matrices as column arrays)"})
 	})
 	register("C03", func(c *run.Ctx) int {
 		replayWitnesses(c, map[string]func(witness) string{"exec-hlsl": witnessExecText(hlslBackend)})
 		c.Each(c.N(600, 6000), textDiffCheck(c, hlslBackend, "C03"))
+		c01PtrArgs(c, []string{"hlsl"})
 		return c.Finish(textDiffRule("HLSL"), []string{"hlslx implements HLSL semantics, byte-address buffer methods and legacy cbuffer packing"})
 	})
 }
